@@ -31,6 +31,7 @@ class Scalar (α : Type) extends Add α, Sub α, Mul α, Div α, Neg α, LT α, 
   pow : α → α → α
   /-- `np.arctan2(y, x)` -/
   atan2 : α → α → α
+  tan : α → α
   /-- `np.nan_to_num` on one element -/
   nanToNum : α → α
   decLt : (a b : α) → Decidable (a < b)
@@ -49,6 +50,7 @@ instance : Scalar Float where
   pi := 3.141592653589793
   pow := Float.pow
   atan2 := Float.atan2
+  tan := Float.tan
   nanToNum x :=
     if x.isNaN then 0.0
     else if x.isInf then (if x > 0.0 then 1.7976931348623157e308 else -1.7976931348623157e308)
@@ -580,6 +582,18 @@ structure LayoutTable where
   groups : List (List (List Nat))
   /-- `AllocentricPanner(positions_for_layout(layout.without_lfe)).st` -/
   tree : List (List (List RawLeaf))
+  /-- per channel: nominal x, y, z, azimuth, elevation (`ZoneExclusionHandler`) as exact float64 rationals -/
+  spk : List (List (Int × Nat)) := []
+  /-- per channel: `allocentric.positions_for_layout` x, y, z -/
+  allo : List (List (Int × Nat)) := []
+  /-- per channel: `layout.norm_positions` x, y, z -/
+  normPos : List (List (Int × Nat)) := []
+  /-- `channel_priority` of the channel-lock handlers -/
+  prio : List Nat := []
+  /-- `"U+045" in layout.channel_names` (`compensate_position`) -/
+  hasU045 : Bool := false
+  /-- `layout.screen`: (is polar, [aspectRatio, centre a, centre b, centre c, width]) -/
+  screen : Option (Bool × List (Int × Nat)) := none
 
 def ratLeaf (r : RawLeaf) : Leaf Rat := ⟨r.1, mkRat r.2.1.1 r.2.1.2, mkRat r.2.2.1.1 r.2.2.1.2, mkRat r.2.2.2.1 r.2.2.2.2⟩
 
